@@ -56,6 +56,8 @@ def canon_exc(e):
         return "fail:protocol"
     if isinstance(e, (TimeoutError, asyncio.TimeoutError)):
         return "fail:timeout"
+    if isinstance(e, asyncio.CancelledError):
+        return "fail:cancelled"
     return "fail:py:" + type(e).__name__
 
 
@@ -130,9 +132,23 @@ def run_history(version, ops, behaviours, connects, token, key, device_id=77, re
         net.connect_script[(IP, PORT)] = [{"o": "ok", "r": "refuse", "h": "hang"}[c] for c in connects]
         lan = LAN(IP, PORT, device_id)
         for op in ops:
-            if behaviours == "director" and op[0] in ("send", "auth"):
+            if behaviours == "director" and op[0] in ("send", "auth", "sendc", "authc"):
                 director.set(*op[-2:])
             try:
+                if op[0] in ("sendc", "authc"):
+                    # the operation runs as a task that the caller cancels `ms` later (or collects, if done)
+                    ms_ = op[2] if op[0] == "sendc" else op[3]
+                    coro = lan.send(op[1]) if op[0] == "sendc" else lan.authenticate(op[1], op[2])
+                    task = asyncio.ensure_future(coro)
+                    await asyncio.sleep(ms_ / 1000)
+                    task.cancel()
+                    try:
+                        r = await task
+                        res["outcomes"].append(("frames:" + ",".join(hx(f) for f in r)) if op[0] == "sendc" else "done")
+                    except BaseException as e:  # noqa  (CancelledError is a BaseException)
+                        res["outcomes"].append(canon_exc(e))
+                    res["times"].append(ms(loop.now()))
+                    continue
                 if op[0] == "send":
                     r = await lan.send(op[1])
                     res["outcomes"].append("frames:" + ",".join(hx(f) for f in r))
@@ -204,6 +220,10 @@ def model_line(ops, rx, connects, params=(2000, 5000, 1000)):
             return "send." + hx(op[1])
         if op[0] == "auth":
             return "auth." + hx(op[1]) + "." + hx(op[2])
+        if op[0] == "sendc":
+            return "sendc." + hx(op[1]) + "." + str(op[2])
+        if op[0] == "authc":
+            return "authc." + hx(op[1]) + "." + hx(op[2]) + "." + str(op[3])
         if op[0] == "adv":
             return f"adv.{op[1]}"
         return "life." + ("none" if op[1] is None else str(op[1]))
@@ -247,7 +267,8 @@ def compare(ctx, stream, version, ops, behaviours, connects, token, key, note=No
     finally:
         sd.SimDevice.__init__ = orig_init
     inp = {"version": version,
-           "ops": [(o[0] + ":" + "/".join(o[-2:])) if o[0] in ("send", "auth") and behaviours == "director"
+           "ops": [(o[0] + ":" + "/".join(str(x) for x in o[-2:]) + (f"@{o[2] if o[0] == 'sendc' else o[3]}" if o[0] in ("sendc", "authc") else ""))
+                   if o[0] in ("send", "auth", "sendc", "authc") and behaviours == "director"
                    else (o[0] if o[0] != "adv" else f"adv{o[1]}") for o in ops],
            "connects": connects, "note": note}
     if ctx.driver:
